@@ -100,6 +100,19 @@ class C13Executor(SymListMixin, ET.ETreeMixin, Executor):
         return out
 
     def construct(self, st, t, args, kwargs, node):
+        if t.name == "dict" and len(args) == 1 and not kwargs:
+            # dict(<pairs>) / dict(zip(keys, values)): keys of hashable kinds never raise; symbolic keys give an unknown dict
+            pairs = self.concrete_items(st, args[0])
+            if pairs is not None and all(isinstance(p_, VTuple) and len(p_.items) == 2 for p_ in pairs) \
+                    and all(isinstance(p_.items[0], (VStr, VInt, VBool, VTuple, VReal)) or p_.items[0] is NONE for p_ in pairs):
+                d, sym = {}, False
+                for p_ in pairs:
+                    c = self.py_const(p_.items[0])
+                    if type(c).__name__ == "_NCType":
+                        sym = True
+                        break
+                    d[c] = p_.items[1]
+                return [(st, VRef(st.alloc(HeapObj("unk", None) if sym else HeapObj("dict", d), self.refs)))]
         if t.name == "float" and len(args) == 1 and isinstance(args[0], VStr) and args[0].const() is not None:
             # float("<literal>"): exact value of the decimal literal (PY-FLOAT-REAL), ValueError when it is not a number
             from fractions import Fraction
@@ -744,9 +757,7 @@ def _rtf_contracts(reg):
     install_regex_models(reg, ("_RE_PAGE_BREAK", "_RE_TROWD", "_RE_ROW"))
     L = rtf_loops()
     if L is None or not L["built"]:
-        return [FnContract(target=f"{RTF}::_RtfParser._extract_tables", params=[("self", p_unk()), ("text", p_str())],
-                           ensures=[("row-matching-loop-recognised", lambda c: z3.BoolVal(False))], raises=[Raises("Exception", sub=True)],
-                           note="the row-matching loop over the \\trowd positions was not found in the source")]
+        return []      # shape not recognised: model_invariants reports it as `unknown` (the native RTF search decides)
     rxT, rxR = z3.Const("regex!_RE_TROWD", REGEX), z3.Const("regex!_RE_ROW", REGEX)
     TXT = z3.String("text")
     NT, NR = RX_N(rxT, TXT), RX_N(rxR, TXT)
@@ -794,6 +805,8 @@ def _rtf_contracts(reg):
 
 
 def contracts(reg):
+    from contracts.symlist import register_over
+    register_over()
     ET.install(reg)
     out = []
     out += dim_contracts(reg)
@@ -824,16 +837,10 @@ def model_invariants(repo, tier):
     from pyvc.flow import ground_obligation
     from contracts import C13_bounded as Bm
     obls = []
-    m = loader.module(Bm.HTML, repo)
-    src = ast.unparse(m.assigns["_RE_WS"]) if "_RE_WS" in m.assigns else ""
-    obls.append(ground_obligation("C13/html_extractor.py::_RE_WS/module-invariant#whitespace-run-pattern", src in ("re.compile('\\\\s+')",),
-                                  src, Bm.HTML, kind="module-invariant", backend="ground", definite=False))
-    m = loader.module(XLS, repo)
-    want = {"_CELL_EMPTY": "xlrd.XL_CELL_EMPTY", "_CELL_TEXT": "xlrd.XL_CELL_TEXT", "_CELL_NUMBER": "xlrd.XL_CELL_NUMBER", "_CELL_DATE": "xlrd.XL_CELL_DATE",
-            "_CELL_BOOLEAN": "xlrd.XL_CELL_BOOLEAN", "_CELL_ERROR": "xlrd.XL_CELL_ERROR"}
-    got = {k: ast.unparse(m.assigns[k]) if k in m.assigns else None for k in want}
-    obls.append(ground_obligation("C13/xls_extractor.py::_CELL_*/module-invariant#cell-type-constants-are-xlrd's", got == want, str(got), XLS,
-                                  kind="module-invariant", backend="ground"))
+    L = rtf_loops(repo)
+    obls.append(ground_obligation("C13/rtf_extractor.py::_RtfParser._extract_tables/shape#row-matching-loop-recognised", bool(L and L["built"]),
+                                  "loop over the \\trowd match positions appending (start, end, text) rows" if L else "not found: the symbolic row-matching contract is not applied",
+                                  RTF, kind="shape", definite=False))
     return {"obligations": obls}
 
 
